@@ -5,6 +5,7 @@ from typing import List, Optional, Tuple, cast
 import regex as re
 from courts_db import courts
 
+from eyecite import _verif
 from eyecite.models import (
     CaseCitation,
     CitationBase,
@@ -387,6 +388,19 @@ def match_on_tokens(
             break
 
     m = re.search(regex, text, flags=flags)
+    if _verif.ENABLED:
+        _verif.emit(
+            "match_on_tokens",
+            forward=forward,
+            start_index=start_index,
+            prefix_len=len(prefix),
+            strings_only=strings_only,
+            text=text,
+            span=list(m.span()) if m else None,
+            groups=(
+                {k: list(m.span(k)) for k in m.groupdict()} if m else {}
+            ),
+        )
     # Useful for debugging regex failures:
     # print(f"Regex: {regex}")
     # print(f"Text: {repr(text)}")
